@@ -423,3 +423,11 @@ package minersc
 //@   prop C38
 //@   requires msc != nil && t != nil && balances != nil
 //@   at-call updateDKGMinersList assert[only-in-the-wait-phase] pn.Phase == Wait
+
+// ---------------------------------------------------------------- staking on miners and sharders (C11)
+// A lock is validated against the stake bounds and delegate limit configured in the global node, for the
+// sender's own transaction.
+//@ func (*MinerSmartContract).addToDelegatePool
+//@   prop C11
+//@   requires gn != nil && t != nil && balances != nil
+//@   at-call StakePoolLock assert[configured-bounds] $arg0 == t && $arg3.MinStake == gn.MinStake && $arg3.MaxStake == gn.MaxStake && $arg3.MaxNumDelegates == gn.MaxDelegates
